@@ -25,6 +25,9 @@ def correspond(prop, prefixes):
                 if m["tb_in_call"]:
                     # hypothesis of C10_disabled_knob_never_changed evaluated by the driver on this call
                     STATS["step_calls_take_best_row_logged_in_call"] = STATS.get("step_calls_take_best_row_logged_in_call", 0) + 1
+            if "num_steps" in m:
+                # solver steps of this call whose numerics (clip, trial points) were replayed on doubles by the driver
+                STATS["solver_steps_replayed"] = STATS.get("solver_steps_replayed", 0) + m["num_steps"]
             d = None
             if "bad-op" in m:
                 d = ("bad-op", None, m["bad-op"])
@@ -36,6 +39,11 @@ def correspond(prop, prefixes):
                 d = ("flags", [impl["vact"], impl["tact"]], [m["vact"], m["tact"]])
             elif m["rows"] != impl["rows"]:
                 d = ("rows", impl["rows"], m["rows"])
+            elif m.get("clip_ok") is False:
+                d = ("clip", "result of _clip_to_max_steps as recorded", "OptNum.clip of the recorded argument differs")
+            elif m.get("trial_ok") is False:
+                d = ("trial-points", "trial points of JacobianSolver.step as recorded",
+                     "OptNum.trialPoint (x - 2^-alpha * clipped step, zeroed where it leaves the limits) differs")
             if d:
                 diffs.append({"hist": o["hist"], "call": o["call"]["kind"], "field": d[0], "impl": d[1], "model": d[2],
                               "line": m.get("n")})
